@@ -2,6 +2,7 @@ import MuscleModel.Engines.Msg
 import MuscleModel.Engines.Queue
 import MuscleModel.Engines.Srv
 import MuscleModel.Engines.Tunnel
+import MuscleModel.Engines.Wildcard
 
 open Muscle.Eng
 
@@ -18,7 +19,8 @@ def engines : List (String × Engine) := [
   ("msg", MsgEngine.engine),
   ("q", QueueEngine.engine),
   ("srv", SrvEngine.engine),
-  ("tun", TunEngine.engine)
+  ("tun", TunEngine.engine),
+  ("wc", WcEngine.engine)
 ]
 
 def main (args : List String) : IO UInt32 := do
